@@ -4,7 +4,11 @@
  * recursive calls replaced by this same contract (goto-instrument --enforce-contract-rec). */
 #ifndef CONTRACTS_MULT_H
 #define CONTRACTS_MULT_H
+#ifdef VERIF_BOUND
+#define KMAX VERIF_BOUND
+#else
 #define KMAX 16777216   /* 2^24: 16*size*... stays far below the object-size limit */
+#endif
 #define CONTRACT_torusPolynomialMultNaive_plain_aux \
     __CPROVER_requires(N >= 1 && N <= KMAX) \
     __CPROVER_requires(__CPROVER_is_fresh(result, (size_t)(2 * N - 1) * sizeof(Torus32)) && __CPROVER_is_fresh(poly1, (size_t)N * sizeof(int32_t)) && __CPROVER_is_fresh(poly2, (size_t)N * sizeof(Torus32))) \
